@@ -36,6 +36,10 @@ def _estimate(kind: str, n: int, V: torch.Tensor, lam: torch.Tensor, seed: int, 
     Va = V[:, order]  # ascending exact eigenbasis
     if kind == "zero":
         return torch.zeros(n, n, dtype=dt)
+    if kind in ("permutation", "exchange"):
+        # an orthonormal estimate that is a permutation matrix (what eigh returns for a diagonal factor): many exact zeros, possibly an all-zero diagonal
+        perm = torch.arange(n - 1, -1, -1) if kind == "exchange" else torch.randperm(n, generator=g)
+        return torch.eye(n, dtype=dt)[:, perm].contiguous()
     if kind == "exact":
         Q = Va
     elif kind == "exact_signflip":
@@ -60,12 +64,25 @@ def oracle(case: dict) -> Outcome:
     if case.get("layout") == "col" and n > 1:
         A = A.t().contiguous().t()  # same symmetric matrix, column-major memory layout (what .T / linalg.inv / cholesky_inverse hand back)
     Ad = A.to(D)
+    if n and Ad.numel():
+        # eigenvectors do not depend on the scale: all oracle arithmetic runs on an exactly (power of two) rescaled copy, so that matrices near the
+        # ends of the dtype's exponent range (whose squares / norms overflow or underflow) are judged like any other
+        amax = float(Ad.abs().max())
+        if amax > 0 and (amax > 1e15 or amax < 1e-15):
+            import math
+
+            Ad = Ad * (2.0 ** (-math.frexp(amax)[1]))
+            cl_extreme = True
+        else:
+            cl_extreme = False
+    else:
+        cl_extreme = False
     an = float(Ad.norm()) if n else 0.0
     eye = torch.eye(n, dtype=D)
     method = case["method"]
     diag_input = bool((A == torch.diag(torch.diagonal(A))).all())
     cl = out.classes
-    cl += [method, case["dtype"]]
+    cl += [method, case["dtype"]] + (["extreme_scale"] if cl_extreme else [])
     cfg = EighEigenvectorConfig() if method == "eigh" else QRConfig(max_iterations=case["max_it"], tolerance=case["tol"])
     est = _estimate(case.get("estimate", "zero"), n, V, lam, case.get("eseed", 0), dt) if method == "qr" else None
     flag_diag = bool(case.get("flag_diag")) and diag_input
@@ -197,10 +214,13 @@ def _strategy(nmax: int):
         recipe = draw(matgen.st_recipe(max_logk=3.0 if dtype == "f32" else 6.0, allow_neg=False, allow_zero=True))
         c: dict = {"n": (draw(st.one_of(st.integers(2, min(8, nmax)), st.integers(1, nmax))) if nmax <= 24 else draw(st.one_of(st.integers(25, nmax), st.sampled_from([32, 33, 64])))), "dtype": dtype, "method": method, "recipe": recipe,
                    "flag_diag": draw(st.booleans()), "layout": draw(st.sampled_from(["row", "row", "col"]))}
+        if draw(st.sampled_from([False] * 7 + [True])):
+            # the ends of the dtype's exponent range: entries are representable, their squares / Frobenius norms are not
+            recipe["scale"] = draw(st.sampled_from([1e20, 1e-20, 1e30, 1e-30] if dtype == "f32" else [1e160, 1e-160, 1e250, 1e-250, 1e20]))
         if method == "qr":
             c["max_it"] = draw(st.one_of(st.integers(1, 5), st.integers(1, 50)))
             c["tol"] = draw(st.sampled_from([1e-1, 1e-3, 1e-5, 1e-8]))
-            c["estimate"] = draw(st.sampled_from(["zero", "exact", "exact", "exact_signflip", "exact_permuted", "random", "random", "perturbed"]))
+            c["estimate"] = draw(st.sampled_from(["zero", "exact", "exact", "exact_signflip", "exact_permuted", "random", "random", "perturbed", "permutation", "exchange"]))
             c["eseed"] = draw(st.integers(0, 10**6))
         return c
 
